@@ -1,4 +1,5 @@
 #include <assert.h>
+#include <ctype.h>
 #include <limits.h>
 #include <stdint.h>
 #include <stdio.h>
@@ -681,6 +682,17 @@ callback_chunkedheader(void * cookie, int status)
 
 	/* If we found one, handle the line. */
 	if (eolpos != buflen) {
+		/*
+		 * A chunk length starts with a hexadecimal digit.  Checking
+		 * this here also means that the parsing below cannot skip
+		 * over the EOL (which counts as whitespace) and run off the
+		 * end of the (not NUL-terminated) buffer.
+		 */
+		if (!isxdigit(buf[0])) {
+			warn0("Invalid chunk length in HTTP response");
+			return (fail(H));
+		}
+
 		/*
 		 * Parse the chunk length; it's always in base 16, and allow
 		 * trailing characters to accommodate the EOL.  ${buf} is not
